@@ -135,6 +135,11 @@ def judge(W, run, trace):
                 viol.append({"oracle": "O4", "role": "private" if ev[1] != "public" else "public",
                              "group": "formula:" + fkind(ev), "kind": "foreign_atoms", "event": i,
                              "expected": {"foreign": 0}, "observed": out})
+        elif k == "formula_reuse":
+            if isinstance(out, dict) and not out["before"].get("foreign") and out["after"].get("foreign"):
+                viol.append({"oracle": "O4", "role": "private" if ev[1] != "public" else "public",
+                             "group": "formula:reuse:" + ev[3], "kind": "foreign_atoms", "event": i,
+                             "expected": out["before"], "observed": out["after"]})
         elif k == "change_atom":
             if isinstance(out, dict) and not (out["same_key"] and out["table_ok"] and out["is"]):
                 viol.append({"oracle": "O4", "role": "private", "group": "change_table", "kind": "wrong_atom",
